@@ -422,7 +422,9 @@ static jv *obs_key(const char *key, jv *call, long r, jv *extra)
     return a;
   }
   if (!strcmp(key, "pmask")) return siglist(K->proc[0].mask, 64);
-  if (!strcmp(key, "pdisp")) { jv *a = j_mkarr(); for (int s = 1; s <= 64; s++) if (K->proc[0].disp[s]) { jv *t = j_mkarr(); j_push(t, j_mkint(s)); j_push(t, j_mkint(K->proc[0].disp[s])); j_push(a, t); } return a; }
+  /* dispositions of the caller: [signal, 1 = ignored | 2 = the caller's handler with the caller's flags and mask | 3 = a handler, but
+     its flags or mask are no longer what the caller installed] */
+  if (!strcmp(key, "pdisp")) { jv *a = j_mkarr(); for (int s = 1; s <= 64; s++) if (K->proc[0].disp[s]) { jv *t = j_mkarr(); j_push(t, j_mkint(s)); j_push(t, j_mkint(K->proc[0].disp[s] == 2 && !sk_sigact_intact(s) ? 3 : K->proc[0].disp[s])); j_push(a, t); } return a; }
   if (!strcmp(key, "pcwd")) return j_mkstr(K->str + K->proc[0].cwd);
   if (!strcmp(key, "penv")) { jv *a = j_mkarr(); for (char **e = environ; e && *e; e++) { char *x = j_pct_encode(*e); j_push(a, j_mkstr(x)); free(x); } return a; }
   /* child-at-exec projections */
@@ -958,7 +960,10 @@ static long do_call(jv *c, jv **extra)
     jv *m = j_get(c, "mask"), *dd = j_get(c, "disp");
     K->proc[0].mask = 0;
     if (m) for (int i = 0; i < m->n; i++) K->proc[0].mask |= 1ULL << (m->a[i]->i - 1);
-    if (dd) for (int i = 0; i < dd->n; i++) K->proc[0].disp[dd->a[i]->a[0]->i] = (uint8_t) dd->a[i]->a[1]->i;
+    if (dd) for (int i = 0; i < dd->n; i++) {
+      K->proc[0].disp[dd->a[i]->a[0]->i] = (uint8_t) dd->a[i]->a[1]->i;
+      if (dd->a[i]->a[1]->i == 2) sk_set_sigact((int) dd->a[i]->a[0]->i, SA_SIGINFO | SA_RESTART, 1ULL << (SIGUSR1 - 1));
+    }
     return 0;
   }
   if (!strcmp(fn, "plimit")) {
@@ -1048,7 +1053,11 @@ static void setup(jv *cfg)
   jv *m = j_get(cfg, "mask");
   if (m) for (int i = 0; i < m->n; i++) K->proc[0].mask |= 1ULL << (m->a[i]->i - 1);
   jv *d = j_get(cfg, "disp");
-  if (d) for (int i = 0; i < d->n; i++) K->proc[0].disp[d->a[i]->a[0]->i] = (uint8_t) d->a[i]->a[1]->i;
+  for (int sg = 1; sg <= 64; sg++) sk_set_sigact(sg, 0, 0);
+  if (d) for (int i = 0; i < d->n; i++) {
+    K->proc[0].disp[d->a[i]->a[0]->i] = (uint8_t) d->a[i]->a[1]->i;
+    if (d->a[i]->a[1]->i == 2) sk_set_sigact((int) d->a[i]->a[0]->i, SA_SIGINFO | SA_RESTART, 1ULL << (SIGUSR1 - 1));   /* a handler with flags and a mask of its own */
+  }
   jv *fs = j_get(cfg, "fs");
   sk_fs_add("/bin/c", FS_EXISTS | FS_EXEC);
   sk_fs_add("/w", FS_EXISTS | FS_DIR);
